@@ -171,6 +171,13 @@ func (a *App) cb(c context.Context, proto, name string) error {
 	if a.Callbacks == CBWrappedFail {
 		return fmt.Errorf("application callback %s failed", name)
 	}
+	if r := reqOf(c); a.Callbacks == CBWrappedReenter && r != nil && !r.Reentered && name != "Default" {
+		r.Reentered = true
+		if fa, ok := a.Actor(Both).(pub.FederatingActor); ok {
+			note, _ := Decode([]byte(`{"@context":"https://www.w3.org/ns/activitystreams","type":"Note","content":"sent from inside an application callback","to":"https://r1.example/u/carol"}`))
+			_, r.ReenterErr = fa.Send(c, U(a.LocalPrefix()+"/u/alice/outbox"), note)
+		}
+	}
 	return nil
 }
 
@@ -183,7 +190,7 @@ func (s Social) SocialCallbacks(c context.Context) (pub.SocialWrappedCallbacks, 
 		return w, nil, err
 	}
 	switch a.Callbacks {
-	case CBWrapped, CBWrappedFail:
+	case CBWrapped, CBWrappedFail, CBWrappedReenter:
 		w.Create = func(c context.Context, v vocab.ActivityStreamsCreate) error { return a.cb(c, "Social", "Create") }
 		w.Update = func(c context.Context, v vocab.ActivityStreamsUpdate) error { return a.cb(c, "Social", "Update") }
 		w.Delete = func(c context.Context, v vocab.ActivityStreamsDelete) error { return a.cb(c, "Social", "Delete") }
@@ -271,7 +278,7 @@ func (f Fed) FederatingCallbacks(c context.Context) (pub.FederatingWrappedCallba
 	}
 	w.OnFollow = a.OnFollow
 	switch a.Callbacks {
-	case CBWrapped, CBWrappedFail:
+	case CBWrapped, CBWrappedFail, CBWrappedReenter:
 		w.Create = func(c context.Context, v vocab.ActivityStreamsCreate) error { return a.cb(c, "Fed", "Create") }
 		w.Update = func(c context.Context, v vocab.ActivityStreamsUpdate) error { return a.cb(c, "Fed", "Update") }
 		w.Delete = func(c context.Context, v vocab.ActivityStreamsDelete) error { return a.cb(c, "Fed", "Delete") }
@@ -330,6 +337,16 @@ func (f Fed) FilterForwarding(c context.Context, potentialRecipients []*url.URL,
 		}
 	case FilterNone:
 		out = nil
+	case FilterLastInPlace:
+		// the allocation-free Go filter idiom: the result shares (and overwrites) the argument's backing array
+		out = potentialRecipients[:0]
+		if n := len(potentialRecipients); n > 0 {
+			out = append(out, potentialRecipients[n-1])
+		}
+	case FilterReverseInPlace:
+		for i, j := 0, len(potentialRecipients)-1; i < j; i, j = i+1, j-1 {
+			potentialRecipients[i], potentialRecipients[j] = potentialRecipients[j], potentialRecipients[i]
+		}
 	}
 	a.FilterIn = append(a.FilterIn, ids)
 	outIDs := make([]string, len(out))
